@@ -93,6 +93,7 @@ type FV struct {
 	localMaps map[types.Object]bool
 	freshMapRefs map[string]bool // refs returned by make(map)/empty literals
 	closures  map[string]*ast.FuncLit
+	closureAccs map[string]*closureAcc
 	binds     []map[types.Object]Value
 	defers    []deferred
 	inlineRet *inlineCtx
@@ -241,7 +242,7 @@ func (eng *Engine) newFV(u *FuncUnit) *FV {
 	fv := &FV{eng: eng, u: u, s: newScript(), info: u.Pkg.TypesInfo,
 		entryVals: map[types.Object]Value{}, oblNames: map[string]int{},
 		compSort: map[string]string{}, epochDefs: map[int]epochDef{}, loopOrd: map[ast.Stmt]int{},
-		boxed: map[types.Object]bool{}, localMaps: map[types.Object]bool{}, freshMapRefs: map[string]bool{}, closures: map[string]*ast.FuncLit{}, strs: map[string]Term{}, strVals: map[string]string{},
+		boxed: map[types.Object]bool{}, localMaps: map[types.Object]bool{}, freshMapRefs: map[string]bool{}, closures: map[string]*ast.FuncLit{}, closureAccs: map[string]*closureAcc{}, strs: map[string]Term{}, strVals: map[string]string{},
 		globalSeen: map[string]bool{}, siteCount: map[string]int{}, quantSorts: map[string]string{}, countFuns: map[string]string{}, sliceKeyID: map[string]Term{}, noteSeen: map[string]bool{},
 		assumptionsUsed: map[string]bool{}, trustedUsed: map[string]bool{}, opaqueUsed: map[string]bool{}, calleesUsed: map[string]bool{}}
 	fv.s.declConst("str_empty", sStr)
